@@ -62,3 +62,21 @@ impl Connector for ConnectorWrapper {
         }
     }
 }
+
+#[cfg(feature = "verif")]
+impl ConnectorWrapper {
+    /// Connection cost through whichever connector kind is stored.
+    pub fn verif_cost(&self, right_id: u16, left_id: u16) -> i32 {
+        match self {
+            Self::Matrix(c) => c.cost(right_id, left_id),
+            Self::Raw(c) => c.cost(right_id, left_id),
+            Self::Dual(c) => c.cost(right_id, left_id),
+        }
+    }
+}
+
+#[cfg(feature = "verif")]
+pub mod verif_reexports {
+    pub use super::raw_connector::scorer::{Scorer, ScorerBuilder, U31x8, SIMD_SIZE};
+    pub use super::raw_connector::{RawConnectorBuilder, INVALID_FEATURE_ID};
+}
